@@ -14,14 +14,4 @@ theorem invC_loadLock (k : Kind) (s s' : St) (a : Actor) (v : Bool) (hA : InvA k
   unfold stepLoadLock at hs
   cases v <;> (repeat' (split at hs)) <;> pointwise hA h a hs
 
-theorem invC_sleepDone (k : Kind) (s s' : St) (a : Actor) (hA : InvA k s) (h : InvC k s) (hs : stepSleepDone s a = some s') :
-    InvC k (bump s' (some a)) := by
-  unfold stepSleepDone at hs
-  (repeat' (split at hs)) <;> pointwise hA h a hs
-
-theorem invC_link (k : Kind) (s s' : St) (a : Actor) (hA : InvA k s) (h : InvC k s) (hs : stepLink s a = some s') :
-    InvC k (bump s' (some a)) := by
-  unfold stepLink at hs
-  (repeat' (split at hs)) <;> pointwise hA h a hs
-
 end ArgoVerif.Model.PopWait
